@@ -121,6 +121,25 @@ def ref_stream(data: bytes, variant: str) -> bytes:
     return out + c.flush()
 
 
+def aligned_then_bomb(align: int, mib: int, n_exact: int = LIMIT) -> bytes:
+    """exactly n_exact octets of output, ending byte-aligned at a compressed offset that is a multiple of `align` (reached with empty
+    stored blocks), followed by a bomb: an implementation that inflates its input slice by slice meets the limit exactly at a slice end"""
+    c = zlib.compressobj(9, zlib.DEFLATED, -15)
+    out = c.compress(b"\0" * n_exact) + c.flush(zlib.Z_FULL_FLUSH)
+    empty = b"\x00\x00\x00\xff\xff"
+    while len(out) % align:
+        out += empty
+    chunk = b"\0" * (1 << 20)
+    tail = b"".join(c.compress(chunk) for _ in range(mib)) + c.flush()
+    return out + tail
+
+
+def valid_then_corrupt(n: int, klass: str, rng) -> bytes:
+    """a stream that inflates cleanly to n octets and is corrupt right after them"""
+    c = zlib.compressobj(6, zlib.DEFLATED, -15)
+    return c.compress(plaintext(n, klass, rng)) + c.flush(zlib.Z_SYNC_FLUSH) + b"\x06\xff\xff"
+
+
 def bomb_stream(mib: int) -> bytes:
     c = zlib.compressobj(9, zlib.DEFLATED, -15)
     chunk = b"\0" * (1 << 20)
@@ -297,6 +316,29 @@ def run_shard(ctx):
                          stream=st, label=f"bomb-{mib}MiB")
             if r:
                 memory_case(ctx, r[0], r[1], ["dir" if ctx.shard == 0 else "A128KW", g.ENCS[ctx.shard], "DEF"], f"bomb:{mib}MiB", False)
+        if ctx.shard in (9, 10, 11, 12):
+            align = [65536, 16384, 4096, 12288][ctx.shard - 9]
+            st = aligned_then_bomb(align, 32 if ctx.tier == "quick" else 256)
+            r = mon.case(LIMIT + (32 << 20), "bomb", f"ref-aligned{align}-then-bomb", g.RFC_ENCS[ctx.shard - 9], ["compact", "flattened", "general", "compact"][ctx.shard - 9], rng,
+                         stream=st, label=f"aligned-{align}")
+            if r:
+                memory_case(ctx, r[0], r[1], ["dir" if (ctx.shard - 9) % 3 == 0 else "A128KW", g.RFC_ENCS[ctx.shard - 9], "DEF"], f"aligned-bomb:{align}", False)
+        if ctx.shard in (13, 14):
+            for n in range(LIMIT - 2, LIMIT + 4):
+                for klass in ("constant", "random"):
+                    st = valid_then_corrupt(n, klass, rng)
+                    ctx.ev()
+                    b = g.make("compact", "A128GCM", [("dir", gen.new_oct(128), None)], b"", zip_=True, compressed=st)
+                    j = J.load()
+                    o = call(j.jwe.decrypt_compact, b.token, j.key(b.recs[0]["key"]), algorithms=["dir", "A128GCM", "DEF"])
+                    ctx.count("decrypts")
+                    ctx.count("beyond_limit" if n > LIMIT else "within_limit")
+                    ctx.nontrivial(("valid-then-corrupt", n, klass))
+                    ctx.cell("ref-valid-then-corrupt", klass, f"n={n}", "returned" if o.ok else o.etype)
+                    if o.ok:
+                        ctx.violation("corrupt-stream-returned", f"a stream corrupt after {n} valid octets was returned as {len(o.value.plaintext)} octets", {"n": n, "class": klass})
+                    elif not o.is_a("JoseError", "ValueError"):
+                        ctx.violation(f"corrupt-stream-escapes:{o.key}", f"a stream corrupt after {n} valid octets escaped as {o.exc!r}", {"n": n, "class": klass})
         # honest large plaintexts under the memory monitor
         if ctx.shard in (3, 4, 5, 6):
             klass = ["random", "constant", "text", "period64"][ctx.shard - 3]
